@@ -7,7 +7,7 @@ from .. import common
 from ..core import Bad, Outcome, guard, hyp_drive
 from ..monitor import MON, analyse, install, wrap_class
 
-from graphtage.bounds import Range, make_distinct, min_bounded, sort as bounded_sort
+from graphtage.bounds import NEGATIVE_INFINITY, POSITIVE_INFINITY, Range, make_distinct, min_bounded, sort as bounded_sort
 from graphtage.search import IterativeTighteningSearch
 
 ID = 'C17'
@@ -38,7 +38,7 @@ MANIFEST_TEXT = ("Generated tightening schedules (including slow one-sided conve
                  "Exhaustive for tiny collections, sampled beyond.")
 MANIFEST_NOTE = "Trusts the synthetic Item class in this module (a list of intervals and an index)."
 DESIGN_REF = 'DESIGN.md section 3, C17'
-SHRINK = {'lists': ['items'], 'enums': {'style': 'strict'}}
+SHRINK = {'lists': ['items'], 'enums': {'style': 'strict', 'initial': None}}
 
 CALL_BUDGET = 20000
 
@@ -50,7 +50,8 @@ class Item:
         self.calls = 0
 
     def bounds(self):
-        return Range(*self.steps[self.i])
+        lo, hi = self.steps[self.i]
+        return Range(lo, POSITIVE_INFINITY if hi is None else hi)       # None = no upper bound known yet
 
     def tighten_bounds(self):
         self.calls += 1
@@ -72,6 +73,9 @@ class Item:
 
 
 def valid_steps(steps):
+    if isinstance(steps, list) and len(steps) >= 2 and isinstance(steps[0], list) and len(steps[0]) == 2 and steps[0][1] is None:
+        # an item whose first interval has no upper bound; it becomes finite on its first refinement
+        return isinstance(steps[0][0], int) and not isinstance(steps[0][0], bool) and valid_steps(steps[1:]) and steps[0][0] <= steps[1][0]
     if not steps or not all(isinstance(s, list) and len(s) == 2 and all(isinstance(x, int) and not isinstance(x, bool) for x in s) for s in steps):
         return False
     if steps[-1][0] != steps[-1][1]:
@@ -83,8 +87,15 @@ def valid_steps(steps):
 
 
 def valid(case):
-    return case.get('style') in ('strict', 'collapse-false') and isinstance(case.get('items'), list) and \
-        len(case['items']) >= 1 and all(valid_steps(s) for s in case['items'])
+    if not (case.get('style') in ('strict', 'collapse-false') and isinstance(case.get('items'), list) and
+            len(case['items']) >= 1 and all(valid_steps(s) for s in case['items'])):
+        return False
+    init = case.get('initial')
+    if init is not None:
+        m = min(s[-1][0] for s in case['items'])
+        if not (isinstance(init, list) and len(init) == 2 and (init[0] is None or init[0] <= m) and (init[1] is None or m <= init[1])):
+            return False
+    return True
 
 
 @st.composite
@@ -122,7 +133,19 @@ def collections(draw):
     items = [draw(item_steps(0, hi)) for _ in range(n)]
     if n >= 2 and draw(st.booleans()):
         items[1] = [list(s) for s in items[0]]       # identical intervals / exact tie
-    return {'items': items, 'style': draw(st.sampled_from(['strict', 'collapse-false']))}
+    case = {'items': items, 'style': draw(st.sampled_from(['strict', 'collapse-false']))}
+    if draw(st.integers(0, 3)) == 0:
+        # some items start without an upper bound
+        for k in range(n):
+            if draw(st.integers(0, 2)) == 0:
+                items[k] = [[draw(st.integers(0, items[k][0][0])), None]] + items[k]
+    if draw(st.integers(0, 2)) == 0:
+        # the caller knows (correct) bounds on the optimum: often tight on one or both sides
+        m = min(s[-1][0] for s in items)
+        lo = draw(st.sampled_from([None, m, m, m - 1, m - 3]))
+        hi = draw(st.sampled_from([None, m, m, m + 1, m + 3]))
+        case['initial'] = [lo, hi]
+    return case
 
 
 def tiny_scripts(R=3, maxsteps=2):
@@ -193,7 +216,12 @@ def check(case):
     MON.active = True
     try:
         with guard('IterativeTighteningSearch.search'):
-            s = IterativeTighteningSearch(iter(its))
+            if case.get('initial') is not None:
+                lo, hi = case['initial']
+                s = IterativeTighteningSearch(iter(its), initial_bounds=Range(NEGATIVE_INFINITY if lo is None else lo,
+                                                                             POSITIVE_INFINITY if hi is None else hi))
+            else:
+                s = IterativeTighteningSearch(iter(its))
             best = s.search()
             b = s.bounds()
     finally:
@@ -202,7 +230,10 @@ def check(case):
     def final_of(obj):
         bb = obj.bounds()
         return (bb.lower_bound, bb.upper_bound)
-    analyse(final_of, lambda k, d: out.fail('search-' + k, d) if k.split(':')[-1] == 'IterativeTighteningSearch' else None)
+    if case.get('initial') is None:
+        # (with caller-supplied bounds the search's interval can be single-valued before any item has been looked at, so
+        # its "progress" cannot be read off the interval: only its results are checked then)
+        analyse(final_of, lambda k, d: out.fail('search-' + k, d) if k.split(':')[-1] == 'IterativeTighteningSearch' else None)
     MON.reset()
     if best is None:
         out.fail('search-no-result', f"search() returned None for {stepss!r}")
@@ -246,11 +277,15 @@ def check(case):
     for i in range(len(stepss)):
         for j in range(i + 1, len(stepss)):
             (a, b1), (c, d) = stepss[i][0], stepss[j][0]
-            if a <= d and c <= b1 and abs(finals[i] - finals[j]) <= 1:
+            if (d is None or a <= d) and (b1 is None or c <= b1) and abs(finals[i] - finals[j]) <= 1:
                 nt = True
     out.nontrivial = nt
     out.label('style:' + style, f'items:{min(len(stepss), 4)}')
     if len(set(finals)) < len(finals):
         out.label('tie')
+    if case.get('initial') is not None:
+        out.label('known-bounds', 'known-bounds-tight' if m in case['initial'] else 'known-bounds-loose')
+    if any(s[0][1] is None for s in stepss):
+        out.label('unbounded-start')
     out.info = {'finals': finals}
     return out
